@@ -576,11 +576,36 @@ def unroll_displays(stmts):
     return out
 
 
+def split_assignments(stmts):
+    """a = self.b = value -> tmp-free chain split; t1, t2 = v1, v2 -> t1 = v1; t2 = v2 (when no target is read by a later value).
+    Applied to encoders and decoders alike, recursively."""
+    out = []
+    for s in stmts:
+        if isinstance(s, (ast.If, ast.For, ast.While, ast.Try, ast.With)):
+            s = copy.copy(s)
+            for f in ("body", "orelse", "finalbody"):
+                if getattr(s, f, None):
+                    setattr(s, f, split_assignments(getattr(s, f)))
+        if isinstance(s, ast.Assign) and len(s.targets) == 2 and {type(s.targets[0]), type(s.targets[1])} == {ast.Name, ast.Attribute}:
+            nm, at = (s.targets if isinstance(s.targets[0], ast.Name) else s.targets[::-1])
+            s1 = ast.copy_location(ast.Assign(targets=[nm], value=s.value, lineno=s.lineno), s)
+            s2 = ast.copy_location(ast.Assign(targets=[at], value=ast.Name(id=nm.id, ctx=ast.Load()), lineno=s.lineno), s)
+            out += [ast.fix_missing_locations(s1), ast.fix_missing_locations(s2)]
+        elif isinstance(s, ast.Assign) and len(s.targets) == 1 and isinstance(s.targets[0], ast.Tuple) and isinstance(s.value, ast.Tuple) \
+                and len(s.targets[0].elts) == len(s.value.elts) and _sequential_ok(s.targets[0].elts, s.value.elts):
+            for t, v in zip(s.targets[0].elts, s.value.elts):
+                out.append(ast.fix_missing_locations(ast.copy_location(ast.Assign(targets=[t], value=v, lineno=s.lineno), s)))
+        else:
+            out.append(s)
+    return out
+
+
 def inlined_body(prog, cls, fn):
     """(statements of fn with helper calls inlined, list of helpers inlined)."""
     inl = Inliner(prog, cls.module if cls is not None else fn.module, cls)
     inl.owner_stack.append(fn.cls)
-    body = inl.body(comps_to_loops(unroll_displays(fuse_lists(list(fn.node.body)))))
+    first = list(fn.node.body) if fn.name == "decode" else split_assignments(list(fn.node.body))
+    body = inl.body(comps_to_loops(unroll_displays(fuse_lists(first))))
     if fn.name == "decode":
         body = normalize(body)
     for s in body:
